@@ -167,7 +167,9 @@ theorem parseRegex_out (cx : Ctx) (st : St) (hq : Quiet st (parseRegex cx st).2)
         simp only [hl, if_true] at hm
         simp only [Option.some.injEq] at hm; subst hm
         exact ⟨⟨hnb, by rw [hl]; simp⟩, fun _ => ⟨hnb, by rw [hl]; simp⟩⟩
-      | false => simp [hl] at hm
+      | false =>
+        simp [hl] at hm
+        split at hm <;> simp at hm
   · cases hm
 
 theorem parseGlobM_out (cx : Ctx) (implicit : Bool) (st : St) (hq : Quiet st (parseGlobM cx implicit st).2) (m : Matcher)
@@ -436,10 +438,10 @@ theorem out_all (cx : Ctx) : ∀ f,
           · simp at h
 
 /-- **every set definition of an error-free parse is well-formed** -/
-theorem parseFilterset_out (input : List Char) (rv gv : List (List Char × Bool)) (e : PExpr)
-    (h : parseFilterset input rv gv = .ok e) : SetsOut (mkCtx input rv gv) e := by
+theorem parseFilterset_out (input : List Char) (rv gv : List (List Char × Bool)) (re : List (List Char × Nat × Nat)) (e : PExpr)
+    (h : parseFilterset input rv gv re = .ok e) : SetsOut (mkCtx input rv gv re) e := by
   unfold parseFilterset at h
-  generalize hpt : parseTop (mkCtx input rv gv) input = pt at h
+  generalize hpt : parseTop (mkCtx input rv gv re) input = pt at h
   obtain ⟨eo, stf⟩ := pt
   simp only at h
   cases eo with
@@ -453,13 +455,13 @@ theorem parseFilterset_out (input : List Char) (rv gv : List (List Char × Bool)
       -- the parse recorded no error at all, so in particular none during `parseExpr`
       unfold parseTop at hpt
       simp only at hpt
-      generalize hp : parseExpr (mkCtx input rv gv) (fuelFor input) { rest := input, errs := [], needs := [] } = r at hpt
+      generalize hp : parseExpr (mkCtx input rv gv re) (fuelFor input) { rest := input, errs := [], needs := [] } = r at hpt
       obtain ⟨e1, st1⟩ := r
       simp only at hpt
       split at hpt
       · simp only [Prod.mk.injEq] at hpt
         obtain ⟨rfl, rfl⟩ := hpt
-        exact (out_all (mkCtx input rv gv) (fuelFor input)).1 _ _ _ hp (by simpa [Quiet, St.withRest] using hs)
+        exact (out_all (mkCtx input rv gv re) (fuelFor input)).1 _ _ _ hp (by simpa [Quiet, St.withRest] using hs)
       · simp only [Prod.mk.injEq] at hpt
         obtain ⟨_, rfl⟩ := hpt
         simp [St.report] at hs
